@@ -266,6 +266,16 @@ func (tx *Tx) Commit() (err error) {
 	// Write meta to disk.
 	if err = tx.writeMeta(); err != nil {
 		lg.Errorf("writeMeta failed: %v", err)
+		if tx.db.meta().Txid() == tx.meta.Txid() {
+			// The meta page was written and only the final sync failed: the
+			// transaction is already visible through the mapping, also to read
+			// transactions that begin now. Rolling the freelist back and
+			// reloading it from that new meta would make the pages this
+			// transaction released reusable at once, although open read
+			// transactions may still reference them.
+			tx.close()
+			return err
+		}
 		tx.rollback()
 		return err
 	}
